@@ -2,8 +2,13 @@
     This file contains only the pinned statements; proofs live in ParseProofs/Sources.v. *)
 From ClapModel Require Import Base.Bytes Base.Machine.
 From ClapModel Require Import Parse.Cmd Parse.Build Parse.Valid Parse.Matcher Parse.Errors Parse.Validator Parse.Parser.
+From ClapModel Require Import ParseProofs.Totality ParseProofs.Actions ParseProofs.Unparse ParseProofs.UnparseTop ParseProofs.UnparseTrail
+                              ParseProofs.UnparseTree ParseProofs.KindSound ParseProofs.SourcesLine ParseProofs.SourcesDefaults ParseProofs.Globals ParseProofs.SourcesLineGlobals ParseProofs.SourcesLineExamples.
 From ClapModel Require Import Sources.Present ParseProofs.Sources Gen.ActionDefaults.
-From Coq Require Import ZArith.
+From Coq Require Import ZArith List.
+From RecordUpdate Require Import RecordSet.
+Import RecordSetNotations.
+Import ListNotations.
 Open Scope N_scope.
 
 (** phase order: on success, [get_matches_with] = validate ∘ add_defaults ∘ add_env ∘ resolve_pending ∘ command line *)
@@ -144,7 +149,7 @@ Theorem C06_react_unfold : forall c idn s a raw ti st,
   react_core c idn s a raw ti st =
   do _ <- (if is_cmdline s then verify_num_args c a raw st else ROk tt);
   react_tail c idn s a (fst (react_vals a raw ti)) (snd (react_vals a raw ti)) st.
-Proof. exact react_core_unfold. Qed.
+Proof. exact Sources.react_core_unfold. Qed.
 Print Assumptions C06_react_unfold.
 
 (** after the command-line phase every entry is labelled CommandLine *)
@@ -227,3 +232,376 @@ Theorem C06_valid_ids_distinct :
   /\ (forall c0, valid c0 = true -> ids_distinct (build_self c0)).
 Proof. exact (conj assert_app_ids_distinct (fun c0 H => assert_app_ids_distinct _ (valid_assert_app c0 H))). Qed.
 Print Assumptions C06_valid_ids_distinct.
+
+(** * Round 2: the property stated against the LINE (ParseProofs/SourcesLine.v)
+
+    Class of C02's un-parser theorem: a rendered invocation tree [i] that is well formed for the
+    built command ([wf_inv]: every level [conv], no [ignore_errors], items [wf_items], ...).
+    [inv_occs c i] are the occurrences of the root level of the tree, computed from the invocation
+    alone; [named_alive c id os] is the boolean "the line names the argument by an occurrence that
+    survives the overrides": a left-to-right state machine, see [C06_named_alive_spec]. *)
+
+(** "named and surviving", declaratively: the last occurrence of the argument is followed only by
+    occurrences that neither are the argument nor override it; and it is exactly "the line denotes
+    some groups for the argument" (C02's [denote_os], C07's abstract fold) *)
+Theorem C06_named_alive_spec : forall c i os,
+  (named_alive c i os = true <->
+   exists os1 o os2, os = os1 ++ o :: os2 /\ a_id (o_arg o) = i /\ Forall (quiet c i) os2)
+  /\ (all_cmdline os -> is_some (denote_os c i os) = named_alive c i os).
+Proof. exact (fun c i os => conj (named_alive_iff c i os) (denote_alive c i os)). Qed.
+Print Assumptions C06_named_alive_spec.
+
+(** (1) THE REPORTED SOURCE IS CommandLine IFF THE LINE NAMES THE ARGUMENT (surviving occurrence), at
+    the root of any tree (by [C02_unparse_tree] every level is the root of its subtree); an
+    argument without entry is not named; a named argument holds exactly the groups the line denotes *)
+Theorem C06_cmdline_iff_named : forall i c f st, valid_tree (S f) c = true -> wf_inv c i = true ->
+  get_matches_with (S f) c (render_inv i) ps_new = ROk st ->
+  forall a, In a (c_args c) ->
+    (forall e, fm_get (a_id a) (mt_args (mt st)) = Some e ->
+       (m_source e = Some SCmdLine <-> named_alive c (a_id a) (inv_occs c i) = true))
+    /\ (fm_get (a_id a) (mt_args (mt st)) = None -> named_alive c (a_id a) (inv_occs c i) = false)
+    /\ (named_alive c (a_id a) (inv_occs c i) = true ->
+        exists e, fm_get (a_id a) (mt_args (mt st)) = Some e /\ m_source e = Some SCmdLine
+                  /\ denote_os c (a_id a) (inv_occs c i) = Some (m_raw e)).
+Proof. exact gmw_cmdline_iff_named. Qed.
+Print Assumptions C06_cmdline_iff_named.
+
+(** ... and at [parse_top], for every level the reported matches reach ([at_level]: the invocation
+    tree and the [ArgMatches] walked down in step), for trees without global arguments *)
+Theorem C06_cmdline_iff_named_top : forall c0 bin i m, is_set s_no_binary_name c0 = false ->
+  valid (with_bin c0 bin) = true -> wf_inv (build_self (with_bin c0 bin)) i = true ->
+  no_globals (build_recursive (S (S (depth (build_self (with_bin c0 bin))))) (with_bin c0 bin)) = true ->
+  parse_top c0 (bin :: render_inv i) = OOk m ->
+  forall c' i' m', at_level (build_self (with_bin c0 bin)) i m c' i' m' ->
+  forall a, In a (c_args c') ->
+    (forall e, fm_get (a_id a) (ms_args m') = Some e ->
+       (m_source e = Some SCmdLine <-> named_alive c' (a_id a) (inv_occs c' i') = true))
+    /\ (fm_get (a_id a) (ms_args m') = None -> named_alive c' (a_id a) (inv_occs c' i') = false)
+    /\ (named_alive c' (a_id a) (inv_occs c' i') = true ->
+        exists e, fm_get (a_id a) (ms_args m') = Some e /\ m_source e = Some SCmdLine
+                  /\ denote_os c' (a_id a) (inv_occs c' i') = Some (m_raw e)).
+Proof. exact parse_top_cmdline_iff_named. Qed.
+Print Assumptions C06_cmdline_iff_named_top.
+
+(** (1, all lines) every valid definition without short flag subcommands, EVERY token list, any
+    level of the recursion: a CommandLine label implies that a token of that level's line names the
+    argument ([occurs], C10's vocabulary) *)
+Theorem C06_cmdline_named_any_line : forall fuel c toks st0 st, tree_ok fuel c -> K c toks st0 ->
+  get_matches_with fuel c toks st0 = ROk st ->
+  forall a e, In a (c_args c) -> fm_get (a_id a) (mt_args (mt st)) = Some e ->
+    m_source e = Some SCmdLine -> occurs c toks a.
+Proof. exact level_cmdline_named. Qed.
+Print Assumptions C06_cmdline_named_any_line.
+
+(** ... at the root, with what the other labels imply: EnvVariable => the variable is set and the
+    entry holds its value split at the delimiter; DefaultValue => no variable is set.
+    (NOT: "EnvVariable => no token names the argument", see [C06_env_named_refuted].) *)
+Theorem C06_source_accounted_any_line : forall c0 toks st, plain c0 = true -> valid c0 = true ->
+  get_matches_with (S (S (depth (build_self c0)))) (build_self c0) toks ps_new = ROk st ->
+  forall a e, In a (c_args (build_self c0)) -> fm_get (a_id a) (mt_args (mt st)) = Some e ->
+    match m_source e with
+    | Some SCmdLine => occurs (build_self c0) toks a
+    | Some SEnv => exists v vs, a_env a = Some v /\ delimit (build_self c0) a [v] None = Some vs /\ m_raw e = [vs]
+    | Some SDefault => a_env a = None
+    | None => False
+    end.
+Proof. exact plain_source_accounted. Qed.
+Print Assumptions C06_source_accounted_any_line.
+
+(** REFUTED reading: "EnvVariable implies that no token names the argument".  [prog --aa=V --gg --hh]
+    ([gg] overrides [aa], [hh] overrides [gg], [aa] has a set variable): accepted, [aa] is labelled
+    EnvVariable, the token [--aa=V] names it.  The implementation agrees (corpus/C06/sources.line-origin.cases). *)
+Theorem C06_env_named_refuted : exists c0 bin i ms a0 e0 tok,
+  valid (with_bin c0 bin) = true /\ plain (with_bin c0 bin) = true /\ wf_inv (build_self (with_bin c0 bin)) i = true /\
+  parse_top c0 (bin :: render_inv i) = OOk ms /\
+  In a0 (c_args (build_self (with_bin c0 bin))) /\ fm_get (a_id a0) (ms_args ms) = Some e0 /\
+  m_source e0 = Some SEnv /\ In tok (render_inv i) /\ token_names (build_self (with_bin c0 bin)) tok a0.
+Proof. exact SrcEx.env_named_refuted. Qed.
+Print Assumptions C06_env_named_refuted.
+
+(** (2) THE ORIGIN THEOREM.  [level_origin c os st]: there is a state [st2] (before the defaults
+    phase) with [add_defaults c st2 = ROk st], the validator accepts, and for every argument [a] of
+    the level ([pre] = the arguments defined before it) exactly one branch of [origin_of] holds:
+      named_alive      -> entry labelled CommandLine, values = the groups the line denotes;
+      else env set     -> entry labelled EnvVariable, values = [[the variable's value split at the delimiter]];
+      else default_choice a (matcher at a's turn) (Some raw)
+                       -> entry labelled DefaultValue, values = [[raw split at the delimiter]];
+      else (default_choice .. None) -> no entry.
+    The definitions are pinned by [C06_origin_spec]; [default_choice] is functional
+    ([C06_default_choice_functional]), so the last two branches exclude each other. *)
+Theorem C06_origin_spec : forall c os st2 st pre a,
+  (origin_of c os st2 st pre a <->
+   if named_alive c (a_id a) os
+   then exists gs e, denote_os c (a_id a) os = Some gs /\ fm_get (a_id a) (mt_args (mt st)) = Some e
+                     /\ m_source e = Some SCmdLine /\ m_raw e = gs
+   else match a_env a with
+        | Some v => exists vs e, delimit c a [v] None = Some vs /\ vs <> []
+                      /\ fm_get (a_id a) (mt_args (mt st)) = Some e
+                      /\ m_source e = Some SEnv /\ m_raw e = [vs]
+        | None => exists st_a ch,
+                    fold_left (defaults_step c) pre (ROk st2) = ROk st_a
+                    /\ default_choice a (mt st_a) ch
+                    /\ match ch with
+                       | None => fm_get (a_id a) (mt_args (mt st)) = None
+                       | Some raw => exists vs e, delimit c a raw None = Some vs /\ vs <> []
+                                       /\ fm_get (a_id a) (mt_args (mt st)) = Some e
+                                       /\ m_source e = Some SDefault /\ m_raw e = [vs]
+                       end
+        end)
+  /\ (level_origin c os st <->
+      exists st2', add_defaults c st2' = ROk st /\ validate c (mt st) = VOk
+        /\ forall pre' a' post, c_args c = pre' ++ a' :: post -> origin_of c os st2' st pre' a').
+Proof. intros. split; split; intros H; exact H. Qed.
+Print Assumptions C06_origin_spec.
+
+Theorem C06_default_choice_functional : forall a m x y, default_choice a m x -> default_choice a m y -> x = y.
+Proof. exact default_choice_det. Qed.
+Print Assumptions C06_default_choice_functional.
+
+(** one level (the root of any tree) *)
+Theorem C06_origin_level : forall i c f st, valid_tree (S f) c = true -> wf_inv c i = true ->
+  get_matches_with (S f) c (render_inv i) ps_new = ROk st ->
+  level_origin c (inv_occs c i) st.
+Proof. exact gmw_origin. Qed.
+Print Assumptions C06_origin_level.
+
+(** every argument of every level of a successful [parse_top] (trees without global arguments) *)
+Theorem C06_origin : forall c0 bin i m, is_set s_no_binary_name c0 = false ->
+  valid (with_bin c0 bin) = true -> wf_inv (build_self (with_bin c0 bin)) i = true ->
+  no_globals (build_recursive (S (S (depth (build_self (with_bin c0 bin))))) (with_bin c0 bin)) = true ->
+  parse_top c0 (bin :: render_inv i) = OOk m ->
+  forall c' i' m', at_level (build_self (with_bin c0 bin)) i m c' i' m' ->
+  exists st', m' = into_inner (mt st') /\ level_origin c' (inv_occs c' i') st'.
+Proof. exact parse_top_origin. Qed.
+Print Assumptions C06_origin.
+
+(** (3) A MISSING-VALUE DEFAULT APPLIES PRECISELY WHEN THE OPTION IS PRESENT WITHOUT A VALUE, on the
+    rendered line: [it] is an item of the level whose last occurrence [o] is the option's
+    ([--o], [--o=v], [--o v1..vk], [-abo], [-abov], [-abo=v], [-abo v1..vk]: [item_occs]), nothing later on
+    the line names the argument again or overrides it.  The last value group of the entry is the
+    declared missing-value default iff the item carries no value for the option; an item with at
+    least one value stores exactly its values (split at the delimiter), never the default. *)
+Theorem C06_missing_value_line : forall c i st its1 it its2 pre_o o, wf_inv c i = true -> run_inv c i = ROk st ->
+  inv_items i = its1 ++ it :: its2 ->
+  item_occs c (items_pos c 1 its1) it = pre_o ++ [o] ->
+  Forall (quiet c (a_id (o_arg o))) (occs c (items_pos c 1 (its1 ++ [it])) its2 ++ trail_part c i) ->
+  a_get_action (o_arg o) = ASet \/ a_get_action (o_arg o) = AAppend ->
+  exists e, fm_get (a_id (o_arg o)) (mt_args (mt st)) = Some e /\ m_source e = Some SCmdLine
+    /\ (o_raw o = [] -> a_default_missing (o_arg o) <> [] ->
+          last (m_raw e) [] = opt_default [] (delimit c (o_arg o) (a_default_missing (o_arg o)) None))
+    /\ (o_raw o <> [] -> last (m_raw e) [] = opt_default [] (delimit c (o_arg o) (o_raw o) (o_ti o)))
+    /\ (o_raw o = [] -> a_default_missing (o_arg o) = [] -> last (m_raw e) [] = []).
+Proof. exact missing_value_line. Qed.
+Print Assumptions C06_missing_value_line.
+
+(** the same for any decomposition of the level's occurrences (also after [--]) *)
+Theorem C06_last_occurrence_line : forall c i st os1 o os2, wf_inv c i = true -> run_inv c i = ROk st ->
+  inv_occs c i = os1 ++ o :: os2 -> Forall (quiet c (a_id (o_arg o))) os2 ->
+  a_get_action (o_arg o) = ASet \/ a_get_action (o_arg o) = AAppend ->
+  exists e, fm_get (a_id (o_arg o)) (mt_args (mt st)) = Some e /\ m_source e = Some SCmdLine
+    /\ last (m_raw e) [] = o_vals c o.
+Proof. exact run_inv_last_occurrence. Qed.
+Print Assumptions C06_last_occurrence_line.
+
+(** Non-vacuity: one command, one line [prog --kk=V --mm --ff run --zz] with every origin
+    (named with the missing-value default, named flag, environment, environment split at ',',
+    conditional default triggered by an environment entry, NAMED BUT OVERRIDDEN -> plain default,
+    implicit flag defaults, absent) and a subcommand level; the hypotheses of the theorems above hold. *)
+Theorem C06_line_nonvacuous :
+  is_set s_no_binary_name SrcEx.t0 = false /\ valid (with_bin SrcEx.t0 SrcEx.tbin) = true /\
+  plain (with_bin SrcEx.t0 SrcEx.tbin) = true /\ wf_inv SrcEx.cb SrcEx.tinv = true /\
+  no_globals (build_recursive (S (S (depth SrcEx.cb))) (with_bin SrcEx.t0 SrcEx.tbin)) = true /\
+  render_inv SrcEx.tinv = [[45;45;107;107;61;86]; [45;45;109;109]; [45;45;102;102]; [114;117;110]; [45;45;122;122]] /\
+  (exists ms sm,
+    parse_top SrcEx.t0 (SrcEx.tbin :: render_inv SrcEx.tinv) = OOk ms /\ ms_sub ms = Some ([114;117;110], sm) /\
+    SrcEx.summary ms = [([109], Some SCmdLine, [[[77]]]); ([102], Some SCmdLine, [[s_true]]);
+                        ([97], Some SEnv, [[[69;49]]]); ([101], Some SEnv, [[[69;50]; [51]]]);
+                        ([98], Some SDefault, [[[120]]]); ([103], Some SDefault, [[s_false]]);
+                        ([104], Some SDefault, [[s_false]]); ([107], Some SDefault, [[[107]]])] /\
+    SrcEx.summary sm = [([122], Some SCmdLine, [[s_true]]); ([120], Some SDefault, [[[113]]])]) /\
+  map (fun a => (a_id a, named_alive SrcEx.cb (a_id a) (inv_occs SrcEx.cb SrcEx.tinv))) (c_args SrcEx.cb) =
+    [([97], false); ([98], false); ([109], true); ([102], true); ([103], false); ([104], false);
+     ([107], false); ([110], false); ([101], false); ([104; 101; 108; 112], false)] /\
+  at_level SrcEx.cb SrcEx.tinv SrcEx.ms0 SrcEx.scb SrcEx.sinv SrcEx.sm0.
+Proof.
+  split; [exact SrcEx.ex_nobin|]. split; [exact SrcEx.ex_valid|]. split; [exact SrcEx.ex_plain|].
+  split; [exact SrcEx.ex_wf|]. split; [exact SrcEx.ex_no_globals|]. split; [exact (proj1 SrcEx.ex_render)|].
+  split; [exact SrcEx.ex_parse|]. split; [exact SrcEx.ex_named|]. exact (proj1 (proj2 SrcEx.ex_at_level)).
+Qed.
+Print Assumptions C06_line_nonvacuous.
+
+(** (4) VALUES THAT CAME FROM DEFAULTS NEVER TRIGGER CONFLICTS, REQUIREMENTS OR ARGUMENTS-PRESENT LOGIC,
+    as a non-interference theorem between two commands (ParseProofs/SourcesDefaults.v).
+    [with_defaults f c]: every argument [a] of the level gets the plain defaults [f a]; nothing else changes. *)
+Theorem C06_with_defaults_spec : forall f c,
+  with_defaults f c = c <| c_args := map (fun a => a <| a_default := f a |>) (c_args c) |>
+  /\ c_groups (with_defaults f c) = c_groups c /\ c_subs (with_defaults f c) = c_subs c
+  /\ c_set (with_defaults f c) = c_set c /\ c_gset (with_defaults f c) = c_gset c.
+Proof. intros. repeat split. Qed.
+Print Assumptions C06_with_defaults_spec.
+
+(** the command-line phase, the environment phase and the validator cannot read a default value:
+    the occurrences of the line are the same up to the argument records, the fold of [react] over
+    them, [add_env] and [validate] are EQUAL functions for both commands *)
+Theorem C06_phases_ignore_defaults : forall f c,
+  (forall i, inv_occs (with_defaults f c) i = map (omap f) (inv_occs c i))
+  /\ (forall os st, react_all (with_defaults f c) (map (omap f) os) st = react_all c os st)
+  /\ (forall st, add_env (with_defaults f c) st = add_env c st)
+  /\ (forall m, validate (with_defaults f c) m = validate c m).
+Proof. exact (fun f c => conj (ni_inv_occs f c) (conj (ni_react_all f c) (conj (ni_add_env f c) (ni_validate f c)))). Qed.
+Print Assumptions C06_phases_ignore_defaults.
+
+(** [pre_defaults c i st2]: [st2] is the level's state after the command line (the fold of [react]
+    over the invocation's occurrences), the subcommand's matches and the environment phase *)
+Theorem C06_pre_defaults_spec : forall c i st2,
+  pre_defaults c i st2 <->
+  exists st1 st1', react_all c (inv_occs c i) ps_new = ROk st1 /\ with_sub c i st1 = Some st1' /\ add_env c st1' = ROk st2.
+Proof. intros. split; intros H; exact H. Qed.
+Print Assumptions C06_pre_defaults_spec.
+
+(** NON-INTERFERENCE: the same rendered invocation, well formed for [c] and for [with_defaults f c]:
+    (1) the state before the defaults phase is the same; (2) each parse succeeds iff that state
+    exists, the validator accepts IT (no default value is in it) and its own defaults phase succeeds;
+    (3) when both succeed the results are that state followed by entries labelled DefaultValue only:
+    explicit entries, [check_explicit], subcommand matches and [args_present] agree.
+    (No restriction on [default_value_if] / [required_if_eq]: a changed default can only change
+    other DefaultValue entries.) *)
+Theorem C06_defaults_noninterference : forall f c i, wf_inv c i = true -> wf_inv (with_defaults f c) i = true ->
+  (forall st2, pre_defaults (with_defaults f c) i st2 <-> pre_defaults c i st2)
+  /\ (forall st, run_inv c i = ROk st <->
+        exists st2, pre_defaults c i st2 /\ validate c (mt st2) = VOk /\ add_defaults c st2 = ROk st)
+  /\ (forall st', run_inv (with_defaults f c) i = ROk st' <->
+        exists st2, pre_defaults c i st2 /\ validate c (mt st2) = VOk /\ add_defaults (with_defaults f c) st2 = ROk st')
+  /\ (forall st st', run_inv c i = ROk st -> run_inv (with_defaults f c) i = ROk st' ->
+        explicit_entries (mt st') = explicit_entries (mt st) /\ mt_sub (mt st') = mt_sub (mt st)
+        /\ args_present (into_inner (mt st')) = args_present (into_inner (mt st))
+        /\ (forall j p, check_explicit (mt st') j p = check_explicit (mt st) j p)
+        /\ exists st2 news news', pre_defaults c i st2
+             /\ mt_args (mt st) = mt_args (mt st2) ++ news /\ mt_args (mt st') = mt_args (mt st2) ++ news'
+             /\ Forall is_default news /\ Forall is_default news').
+Proof. exact defaults_noninterference. Qed.
+Print Assumptions C06_defaults_noninterference.
+
+(** ... for [get_matches_with] at the root of any tree, and at [parse_top] for two definitions whose
+    built forms differ only in plain default values (trees without global arguments) *)
+Theorem C06_defaults_noninterference_level : forall f c i fu st st',
+  valid_tree (S fu) c = true -> valid_tree (S fu) (with_defaults f c) = true ->
+  wf_inv c i = true -> wf_inv (with_defaults f c) i = true ->
+  get_matches_with (S fu) c (render_inv i) ps_new = ROk st ->
+  get_matches_with (S fu) (with_defaults f c) (render_inv i) ps_new = ROk st' ->
+  explicit_entries (mt st') = explicit_entries (mt st) /\ mt_sub (mt st') = mt_sub (mt st)
+  /\ args_present (into_inner (mt st')) = args_present (into_inner (mt st))
+  /\ (forall j p, check_explicit (mt st') j p = check_explicit (mt st) j p).
+Proof. exact gmw_defaults_ni. Qed.
+Print Assumptions C06_defaults_noninterference_level.
+
+Theorem C06_defaults_noninterference_top : forall c0 c0' bin f i m m',
+  is_set s_no_binary_name c0 = false -> is_set s_no_binary_name c0' = false ->
+  valid (with_bin c0 bin) = true -> valid (with_bin c0' bin) = true ->
+  build_self (with_bin c0' bin) = with_defaults f (build_self (with_bin c0 bin)) ->
+  wf_inv (build_self (with_bin c0 bin)) i = true -> wf_inv (with_defaults f (build_self (with_bin c0 bin))) i = true ->
+  no_globals (build_recursive (S (S (depth (build_self (with_bin c0 bin))))) (with_bin c0 bin)) = true ->
+  no_globals (build_recursive (S (S (depth (build_self (with_bin c0' bin))))) (with_bin c0' bin)) = true ->
+  parse_top c0 (bin :: render_inv i) = OOk m -> parse_top c0' (bin :: render_inv i) = OOk m' ->
+  explicit_of m' = explicit_of m /\ ms_sub m' = ms_sub m /\ args_present m' = args_present m.
+Proof. exact parse_top_defaults_ni. Qed.
+Print Assumptions C06_defaults_noninterference_top.
+
+(** Non-vacuity: the example command with other defaults for four arguments ([kk] "Z" for "k", [aa]
+    none, [nn] "N", [bb] "w"), the same line: all hypotheses hold, both parses succeed, the results
+    differ in the DefaultValue entries of [kk] and [nn] only. *)
+Theorem C06_defaults_noninterference_nonvacuous :
+  is_set s_no_binary_name SrcEx.t2 = false /\ valid (with_bin SrcEx.t2 SrcEx.tbin) = true /\
+  build_self (with_bin SrcEx.t2 SrcEx.tbin) = with_defaults SrcEx.f2 SrcEx.cb /\
+  wf_inv (with_defaults SrcEx.f2 SrcEx.cb) SrcEx.tinv = true /\
+  no_globals (build_recursive (S (S (depth (build_self (with_bin SrcEx.t2 SrcEx.tbin))))) (with_bin SrcEx.t2 SrcEx.tbin)) = true /\
+  exists ms2, parse_top SrcEx.t2 (SrcEx.tbin :: render_inv SrcEx.tinv) = OOk ms2 /\
+    SrcEx.summary ms2 = [([109], Some SCmdLine, [[[77]]]); ([102], Some SCmdLine, [[s_true]]);
+                         ([97], Some SEnv, [[[69;49]]]); ([101], Some SEnv, [[[69;50]; [51]]]);
+                         ([98], Some SDefault, [[[120]]]); ([103], Some SDefault, [[s_false]]);
+                         ([104], Some SDefault, [[s_false]]); ([107], Some SDefault, [[[90]]]); ([110], Some SDefault, [[[78]]])].
+Proof.
+  destruct SrcEx.ex_ni_hyps as [H1 [H2 [H3 [H4 H5]]]].
+  split; [exact H1|]. split; [exact H2|]. split; [exact H3|]. split; [exact H4|]. split; [exact H5|]. exact SrcEx.ex_ni_parse.
+Qed.
+Print Assumptions C06_defaults_noninterference_nonvacuous.
+
+(** (2, with global arguments) THE ORIGIN THEOREM at [parse_top] for ANY well-formed tree.  [_do_parse]
+    ends with the merge of global values (C09): there is one final map [vmF], with pairwise distinct
+    keys that are all ids of global arguments used on the chain, such that at every level reached
+    ([at_level2]: the invocation, the parser's matches [m'] and the reported matches [p'] walked in
+    step) the parser's own matches have the origin [level_origin] prescribes and the reported
+    entry of an id is [vmF]'s entry if it is a key, otherwise exactly the parser's entry.
+    (Which entry [vmF] holds: C09_globals -- the most explicit, deepest of the chain's own entries.) *)
+Theorem C06_origin_globals : forall c0 bin i mp, is_set s_no_binary_name c0 = false ->
+  valid (with_bin c0 bin) = true -> wf_inv (build_self (with_bin c0 bin)) i = true ->
+  parse_top c0 (bin :: render_inv i) = OOk mp ->
+  exists st vmF, run_inv (build_self (with_bin c0 bin)) i = ROk st /\ NoDup (map fst vmF)
+    /\ (forall g, mem_id g (used_global_args (S (matches_depth (into_inner (mt st))))
+                              (build_recursive (S (S (depth (build_self (with_bin c0 bin))))) (with_bin c0 bin))
+                              (into_inner (mt st))) = false -> fm_get g vmF = None)
+    /\ forall c' i' m' p', at_level2 (build_self (with_bin c0 bin)) i (into_inner (mt st)) mp c' i' m' p' ->
+         (exists st', m' = into_inner (mt st') /\ level_origin c' (inv_occs c' i') st')
+         /\ (forall k, fm_get k (ms_args p') = match fm_get k vmF with Some e => Some e | None => fm_get k (ms_args m') end).
+Proof. exact parse_top_origin_globals. Qed.
+Print Assumptions C06_origin_globals.
+
+(** Non-vacuity: a tree with a global argument, [prog --nn=V run --gl=S --zz]: the parser stores
+    [gl] = "0" (DefaultValue) at the root, the reported root entry is the subcommand's CommandLine "S". *)
+Theorem C06_origin_globals_nonvacuous :
+  valid (with_bin SrcEx.t3 SrcEx.tbin) = true /\ wf_inv SrcEx.cb3 SrcEx.ginv = true /\
+  no_globals (build_recursive (S (S (depth SrcEx.cb3))) (with_bin SrcEx.t3 SrcEx.tbin)) = false /\
+  parse_top SrcEx.t3 (SrcEx.tbin :: render_inv SrcEx.ginv) = OOk SrcEx.gmp /\ run_inv SrcEx.cb3 SrcEx.ginv = ROk SrcEx.gst /\
+  SrcEx.summary (into_inner (mt SrcEx.gst)) = [([110], Some SCmdLine, [[[86]]]); ([97], Some SEnv, [[[69;49]]]); ([103;108], Some SDefault, [[[48]]])] /\
+  SrcEx.summary SrcEx.gmp = [([110], Some SCmdLine, [[[86]]]); ([97], Some SEnv, [[[69;49]]]); ([103;108], Some SCmdLine, [[[83]]])] /\
+  at_level2 SrcEx.cb3 SrcEx.ginv (into_inner (mt SrcEx.gst)) SrcEx.gmp SrcEx.cb3 SrcEx.ginv (into_inner (mt SrcEx.gst)) SrcEx.gmp.
+Proof. exact SrcEx.ex_globals. Qed.
+Print Assumptions C06_origin_globals_nonvacuous.
+
+(** (4, second part) THE ARGUMENTS WHOSE DEFAULTS WERE KEPT.  Class [difs_avoid_b f c] (boolean): no
+    [default_value_if] rule of any argument of the level reads an argument whose plain defaults [f]
+    changes.  Then every argument whose defaults were kept reports the same source and the same
+    values in both results ([view] = (source, raw values); the indices of DefaultValue entries can
+    differ, the index counter also runs over the changed defaults). *)
+Theorem C06_unchanged_class_spec : forall f c,
+  (difs_avoid_b f c =
+   forallb (fun b => forallb (fun r => negb (existsb (fun a => beq (a_id a) (fst (fst r)) && changed_b f a) (c_args c)))
+                             (a_default_ifs b)) (c_args c))
+  /\ (forall a, changed_b f a = negb (lbeq (f a) (a_default a)))
+  /\ (forall x y, lbeq x y = true -> x = y)
+  /\ (forall e, view e = (m_source e, m_raw e))
+  /\ (forall i, changed_id f c i <-> exists a, In a (c_args c) /\ a_id a = i /\ f a <> a_default a).
+Proof. intros. split; [reflexivity|]. split; [reflexivity|]. split; [exact lbeq_eq|]. split; [reflexivity|]. intros; split; intros H; exact H. Qed.
+Print Assumptions C06_unchanged_class_spec.
+
+Theorem C06_defaults_unchanged_args : forall f c i st st', wf_inv c i = true -> wf_inv (with_defaults f c) i = true ->
+  difs_avoid_b f c = true ->
+  run_inv c i = ROk st -> run_inv (with_defaults f c) i = ROk st' ->
+  forall a, In a (c_args c) -> f a = a_default a ->
+    opt_map view (fm_get (a_id a) (mt_args (mt st'))) = opt_map view (fm_get (a_id a) (mt_args (mt st))).
+Proof. exact defaults_unchanged_args. Qed.
+Print Assumptions C06_defaults_unchanged_args.
+
+(** ... for every id that is not a changed argument (group ids included) *)
+Theorem C06_defaults_unchanged_ids : forall f c i st st', wf_inv c i = true -> wf_inv (with_defaults f c) i = true ->
+  difs_avoid_changed f c ->
+  run_inv c i = ROk st -> run_inv (with_defaults f c) i = ROk st' ->
+  forall j, ~ changed_id f c j ->
+    opt_map view (fm_get j (mt_args (mt st'))) = opt_map view (fm_get j (mt_args (mt st))).
+Proof. exact defaults_unchanged_agree. Qed.
+Print Assumptions C06_defaults_unchanged_ids.
+
+(** Non-vacuity: changing only [kk] and [nn] satisfies the class, the hypotheses hold, both parses
+    succeed; the change [f2] of the earlier example is outside the class ([bb]'s rule reads [aa]). *)
+Theorem C06_defaults_unchanged_nonvacuous :
+  difs_avoid_b SrcEx.f3 SrcEx.cb = true /\ difs_avoid_b SrcEx.f2 SrcEx.cb = false /\
+  wf_inv (with_defaults SrcEx.f3 SrcEx.cb) SrcEx.tinv = true /\
+  run_inv SrcEx.cb SrcEx.tinv = ROk (SrcEx.st_of (run_inv SrcEx.cb SrcEx.tinv)) /\
+  run_inv (with_defaults SrcEx.f3 SrcEx.cb) SrcEx.tinv = ROk (SrcEx.st_of (run_inv (with_defaults SrcEx.f3 SrcEx.cb) SrcEx.tinv)) /\
+  SrcEx.summary (into_inner (mt (SrcEx.st_of (run_inv (with_defaults SrcEx.f3 SrcEx.cb) SrcEx.tinv)))) =
+    [([109], Some SCmdLine, [[[77]]]); ([102], Some SCmdLine, [[s_true]]);
+     ([97], Some SEnv, [[[69;49]]]); ([101], Some SEnv, [[[69;50]; [51]]]);
+     ([98], Some SDefault, [[[120]]]); ([103], Some SDefault, [[s_false]]);
+     ([104], Some SDefault, [[s_false]]); ([107], Some SDefault, [[[90]]]); ([110], Some SDefault, [[[78]]])].
+Proof. exact SrcEx.ex_unchanged. Qed.
+Print Assumptions C06_defaults_unchanged_nonvacuous.
